@@ -131,6 +131,11 @@ func producerArgLists() [][]interface{} {
 		{safeFmtT{"k", "sec" + mEnd}, safeMsgT{"m"}, "t"},
 		{panStrT{"p" + mStart}, redact.RedactableString("a"), nil},
 		{errT{"e\n"}, strT{"s" + mEnd}, fmtWST{"f"}},
+		// operands whose TEXT begins or ends with a part of a marker, safe and unsafe: a literal that ends in the
+		// other part and the operand are separate writes, and only together they spell a marker
+		{redact.Safe("\x80\xb9x"), redact.Safe("y\xe2\x80"), "\xba"},
+		{safeT("\x80\xba"), "\x80\xb9u", redact.Safe("\xb9")},
+		{"\x80\xb9", redact.Safe("\x80\xb9"), redact.RedactableString("\x80\xb9")},
 	}
 }
 
